@@ -265,7 +265,10 @@ def run_schedule(cfg, sched, stats, prop, check_bus, check_next):
     stats.label(f"N={n}")
     stats.label("N>=9", n >= 9)
     stats.label("add_after_elaboration", getattr(arb, "mid_elaborated", False))
-    stats.label("mixed_feature_spelling", bool(cfg.get("feat_mixed")) and len(cfg["feat"]) >= 2)
+    style = cfg.get("feat_style", "mixed" if cfg.get("feat_mixed") else "list")
+    stats.label("mixed_feature_spelling", style in ("mixed", "tuple", "gen") and len(cfg["feat"]) >= 2)
+    stats.label("features_one_shot_iterator", style in ("gen", "iter", "map") and bool(cfg["feat"]))
+    stats.label("features_container_tampered", cfg.get("feat_tamper") is not None)
     stats.label("same_signal_names", bool(cfg.get("same_path")) and n >= 2)
     stats.label("arbiter_has_lock", "lock" in feat)
     stats.label("arbiter_lacks_lock", "lock" not in feat)
